@@ -671,9 +671,12 @@ inline void genGlobalParams(Rng &rng, ColoquinteParameters &p, std::string *desc
   rl.nbSteps = (int)rng.range(0, 3);
   rl.binSize = rng.chance(0.4) ? 5.0 : rng.unif(1.0, 25.0);
   rl.lineReoptSize = rng.chance(0.2) ? (int)rng.range(1, 64) : (int)rng.range(1, 5);
-  rl.lineReoptOverlap = rl.lineReoptSize > 1 ? (int)rng.range(1, rl.lineReoptSize - 1) : (int)rng.range(1, 3);
+  // wide windows advance by at least a quarter of their size: a 59-bin window advancing by 2 over a grid of one-unit bins is
+  // legitimate but costs minutes of CPU under ASan (seen in a C08 quick run at seed 2), and the budgets decide "hang"
+  auto overlapFor = [&](int size) { return size > 1 ? (int)rng.range(1, size > 8 ? size - size / 4 : size - 1) : (int)rng.range(1, 3); };
+  rl.lineReoptOverlap = overlapFor(rl.lineReoptSize);
   rl.diagReoptSize = rng.chance(0.2) ? (int)rng.range(1, 64) : (int)rng.range(1, 4);
-  rl.diagReoptOverlap = rl.diagReoptSize > 1 ? (int)rng.range(1, rl.diagReoptSize - 1) : (int)rng.range(1, 3);
+  rl.diagReoptOverlap = overlapFor(rl.diagReoptSize);
   rl.squareReoptSize = (int)rng.range(1, rng.chance(0.2) ? 8 : 3);
   rl.squareReoptOverlap = rl.squareReoptSize > 1 ? (int)rng.range(1, rl.squareReoptSize - 1) : (int)rng.range(1, 3);
   rl.unidimensionalTransport = rng.chance(0.5);
